@@ -397,7 +397,7 @@ SELFTEST_N = {"quick": 4, "thorough": 16}
 
 
 def plan(tier, seed, scale=1.0):
-    n = int({"quick": 192, "thorough": 20000}[tier] * scale)
+    n = int({"quick": 192, "thorough": 6000}[tier] * scale)
     per = 4 if tier == "quick" else 20
     return [{"kind": "runs", "seed": seed, "lo": lo, "hi": min(n, lo + per), "tier": tier} for lo in range(0, n, per)]
 
